@@ -139,6 +139,8 @@ fn check<C: Suite>(case: &Case, ctx: &mut Ctx) -> CheckResult {
     ctx.eval(&format!("{sname},{},{:?}", tape_name(&case.tape), case.calls), true);
     ctx.label(&format!("tape:{}", tape_name(&case.tape)));
     ctx.label(&format!("share:{sname}"));
+    // the ciphersuite crate's own round1::commit gives what the generic function gives (same stream, same nonces)
+    crate::wrappers::differential::<C>(ctx, "C15", crate::wrappers::Part::Sign, case.share_seed)?;
     for c in &case.calls {
         match *c {
             0 => ctx.label("call:commit"),
